@@ -5,7 +5,7 @@ use crate::gen::{CommitSched, Gen, Profile};
 use crate::inst::{Instance, Resp};
 use crate::ops::*;
 use crate::rng::Rng;
-use crate::world::{hex_u64, World, BASE_TS, N_PK};
+use crate::world::{addr_str, hex_u64, pk_addr, World, BASE_TS, N_PK};
 use serde_json::{json, Value};
 
 pub struct C17;
@@ -189,6 +189,20 @@ impl Prop for C17 {
                     };
                     // block number / previous block hash / chain id are context a prediction may depend on
                     let (target, data) = if g.rng.chance(1, 6) { (Target::Contract(g.rng.below(4) as u8), Cd::BlockInfo) } else { (target, data) };
+                    // targets without code of their own: the zero address (which is not "no target"), a precompile, the
+                    // sender itself - with empty and non-trivial call data
+                    let (target, data) = if g.rng.chance(1, 10) {
+                        let t = match g.rng.below(4) {
+                            0 | 1 => Target::Addr("0x0000000000000000000000000000000000000000".into()),
+                            2 => Target::Precompile(*g.rng.pick(&[1u8, 2, 4, 9])),
+                            _ => Target::Addr(addr_str(&pk_addr(sender))),
+                        };
+                        let d = if g.rng.chance(1, 3) { Cd::Empty } else if g.rng.chance(1, 2) { Cd::Raw(hex::encode(crate::programs::number_initcode())) } else { data };
+                        w.stats.bump("probe_target_without_code");
+                        (t, d)
+                    } else {
+                        (target, data)
+                    };
                     (
                         w.eth_call_obj(&Who::Pk(sender), &Some(target.clone()), &data, &None),
                         Tx { id, kind: TxKind::Call { sender, target, by_inscription: false, data }, len: LenPolicy::Generous, enc: Enc::Hex },
